@@ -198,6 +198,9 @@ func (s *vfSession) signalList(t *vfTopo) ([]vfPendingSignal, error) {
 	var out []vfPendingSignal
 	add := func(from, to *vfSide, modes map[string]string) error {
 		for _, c := range from.localCands() {
+			if c.NetworkType().IsTCP() {
+				continue // ICE-TCP passive candidates (C02 sessions) are reached by the harness only, not signalled to the peer agent
+			}
 			mode := modes[c.Address()]
 			for _, m := range strings.Split(mode, "+") {
 				sc, err := s.signalled(c, m)
